@@ -22,7 +22,7 @@ RULE = ("Hypothesis: C01's sample shapes with the dict-like booster (objects who
         "distinct = canonical JSON of (samples, options).")
 ASSUMPTIONS = ["keys with a trailing newline are not generated ($ vs \\Z)", "regexes have no top-level alternation",
                "objects below an ambiguous routing point (two object-shaped union members admit them) are skipped and counted"]
-FLOORS = {"has-dict-options": 0.5}
+FLOORS = {"has-dict-options": 0.35}
 
 
 @st.composite
